@@ -883,7 +883,28 @@ def c06_key(R):
     hk = util.kw(c, "hash")
     hparam = positional_params(dd)[0] if positional_params(dd) else None
     R.check(hk is not None and ast.unparse(hk) == hparam, m, c, "_d passes the pickled hash", "_d does not pass the pickled hash as hash=", construct="_d hash")
-    extra_kw = sorted(k.arg or "**" for k in c.keywords if k.arg not in set(names) | {"hash"})
+    # skip_child_annotations says "the annotations given are the node's own, do not add the children's relocatable ones
+    # again" - exactly what a pickled annotation tuple is.  It is harmless only because the non-eliminatable summary is
+    # inherited from the children whatever the switch says (C07.new decides that)
+    newfn = _new(tree)
+    unconditional = any(
+        isinstance(st, ast.AugAssign) and "_uneliminatable_annotations" in ast.unparse(st.value) and not guards.holds(st, stop=newfn)
+        for st in walk_no_nested(newfn)
+    )
+    allowed_switches = {"skip_child_annotations"} if unconditional else set()
+    sk = util.kw(c, "skip_child_annotations")
+    R.check(
+        isinstance(sk, ast.Constant) and sk.value is True,
+        m,
+        c,
+        "_d takes the pickled annotations as the node's own",
+        "_d rebuilds a node without skip_child_annotations: __new__ then adds the children's relocatable annotations to the pickled "
+        "tuple again, so annotations that were removed from the node on purpose come back - "
+        "(x.annotate(Taint(1)) + y).clear_annotations() unpickled with Taint(1) on the sum, and as another object than the "
+        "expression builds",
+        construct="_d: pickled annotations re-completed from the children",
+    )
+    extra_kw = sorted(k.arg or "**" for k in c.keywords if k.arg not in set(names) | {"hash"} | allowed_switches)
     R.check(
         not extra_kw,
         m,
@@ -965,8 +986,33 @@ def c06_bypass(R):
         "the supplied-hash shortcut of Base.__new__ changed shape",
     )
     look = [st for st in walk_no_nested(fn) if isinstance(st, ast.Assign) and ast.unparse(st.value) == "cls._hash_cache.get(hash_, None)"]
-    R.check(len(look) == 1, m, fn, "lookup under the computed hash", "Base.__new__ no longer looks the computed hash up in _hash_cache",
+    R.check(len(look) >= 1, m, fn, "lookup under the computed hash", "Base.__new__ no longer looks the computed hash up in _hash_cache",
             construct="Base.__new__: lookup")
+    # the object is filed under a second look at the table, taken under a lock: two threads that both missed must end
+    # up with one object (every store into the table is inside a `with <lock>` block and dominated by a miss of a
+    # lookup made inside that block)
+    for q_ in ("Base.__new__", "Base.make_like"):
+        f_ = tree.func(BASE, q_)
+        for st in ast.walk(f_):
+            if not (isinstance(st, ast.Assign) and isinstance(st.targets[0], ast.Subscript) and ("_hash_cache" in ast.unparse(st.targets[0].value) or ast.unparse(st.targets[0].value) == "cache")):
+                continue
+            par = getattr(st, "_parent", None)
+            locked = None
+            while par is not None and par is not f_:
+                if isinstance(par, ast.With) and any("lock" in ast.unparse(it.context_expr).lower() for it in par.items):
+                    locked = par
+                par = getattr(par, "_parent", None)
+            relook = locked is not None and any(isinstance(x, ast.Call) and isinstance(x.func, ast.Attribute) and x.func.attr == "get" for b_ in locked.body for x in ast.walk(b_))
+            R.check(
+                locked is not None and relook,
+                m,
+                st,
+                f"{q_}: filed under a lock after a second look at the table",
+                f"{q_} files the new object with `{ast.unparse(st)[:50]}` without re-checking the table under a lock: two threads that "
+                f"missed the table for the same expression each file their own object, and the program holds two live ASTs for one "
+                f"expression",
+                construct=f"{q_}: filing not atomic with the lookup",
+            )
 
 
 @rule(
